@@ -1263,6 +1263,13 @@ class Facts:
                             x = x[1]
                         if not is_mut:
                             continue
+                        if x[0] == "field" and x[2] in ("0", "inner", "ids") and isinstance(x[1], tuple):
+                            # the collection inside a private newtype wrapped around the field
+                            y = x[1]
+                            while isinstance(y, tuple) and y[0] in ("ref", "deref"):
+                                y = y[1]
+                            if isinstance(y, tuple) and y[0] == "field" and y[2] == field:
+                                x = y
                         if x[0] == "field" and x[2] == field and x[3] and x[3].endswith(of_suffix):
                             out.append((b, c, i))
         return out
